@@ -12,6 +12,7 @@ LEVELS = [0, 1, 2, 3, 4, 5, 6, 7, 8]
 class Gen:
     def __init__(self, seed, variant, qcap=512, focus=None):
         self.r = random.Random(seed)
+        self.seed = seed if isinstance(seed, int) else hash(str(seed)) & 0xffffff
         self.variant = variant
         self.dropping = variant % 2 == 1
         self.unbounded = variant >= 2
@@ -37,7 +38,13 @@ class Gen:
         if f == "pressure":
             soft, hard = r.choice([(1, 1), (1, 2), (2, 2), (2, 4)])
         self.grace_ns = grace * 1000
-        self.emit("cfg grace=%d soft=%d hard=%d tcap=%d" % (grace, soft, hard, r.choice([2, 4, 8])))
+        # sink_min_flush_interval in ms: 0 (every idle pass flushes), small (elapses with the script's clock steps: 1 ms),
+        # huge (never elapses after the start) — drawn from a generator of its own so that the rest of the script is the
+        # one the seed always produced
+        ri = random.Random(self.seed * 7919 + self.variant * 13 + 5)
+        self.flushint = ri.choice([0, 0, 1, 1000000]) if f != "flush" else ri.choice([0, 1, 1000000, 1000000])
+        fi = " flushint=%d" % self.flushint if self.flushint else ""
+        self.emit("cfg grace=%d soft=%d hard=%d tcap=%d%s" % (grace, soft, hard, r.choice([2, 4, 8]), fi))
         self.nsinks = r.choice([1, 2, 2, 3])
         self.sinkcfg = {}
         for s in range(self.nsinks):
@@ -252,6 +259,26 @@ def directed_scripts(variant):
     out.append(("dir_f12_removed_logger_flush", [
         "cfg grace=0 soft=4 hard=8 tcap=2", "sink 0 lvl=0", "sink 1 lvl=0", "logger 0 sinks=0 lvl=0", "logger 1 sinks=1 lvl=0", "start",
         "T 1 start", "L 1 0 4 10", "RL 1 0", "F 1 1", "P", "P", "R 1", "P", "P", "Q", "X"]))
+    # F33: non-zero sink_min_flush_interval; the logger is erased (idle branch) before any flush; the user keeps the sink
+    for tag, removal, pre in (("rl", "RL 1 0", []), ("rb", "RB 1 0", []), ("written_first", "RL 1 0", ["P"])):
+        out.append(("dir_f33_erased_logger_flush_" + tag, [
+            "cfg grace=0 soft=4 hard=8 tcap=2 flushint=1000000", "sink 0 lvl=0", "sink 1 lvl=0", "logger 0 sinks=0 lvl=0",
+            "logger 1 sinks=1 lvl=0", "start", "T 1 start", "T 2 start", "L 1 0 4 10"] + pre + [removal, "P", "P", "P", "R 1", "Q",
+            "F 1 1", "P", "P", "R 1", "K 2000000000", "P", "Q", "X"]))
+    # the gate itself: interval 1 ms; idle passes just below, at and just above the interval; Flush event and exit ignore it
+    out.append(("dir_flush_interval_gate", [
+        "cfg grace=0 soft=4 hard=8 tcap=2 flushint=1", "sink 0 lvl=0", "logger 0 sinks=0 lvl=0", "start",
+        "T 1 start", "L 1 0 4 10", "P", "P", "K 999999", "P", "K 1", "P", "K 1", "P", "P", "L 1 0 4 10", "F 1 0", "P", "P", "R 1",
+        "K 1000001", "P", "L 1 0 4 10", "P", "Q", "X"]))
+    # a write fault on a later sink after an earlier sink took the statement, then flush_log: the earlier sink holds output
+    out.append(("dir_flush_after_partial_write", [
+        "cfg grace=0 soft=4 hard=8 tcap=2 flushint=1000000", "sink 0 lvl=0", "sink 1 lvl=0 wthrow=1", "logger 0 sinks=0,1 lvl=0", "start",
+        "T 1 start", "L 1 0 4 10", "F 1 0", "P", "P", "R 1", "L 1 0 4 10", "F 1 0", "P", "P", "R 1", "Q", "X"]))
+    # flush_log of thread 2 behind a backlog of thread 1 that is longer than the hard limit (batch mode: soft = 1)
+    out.append(("dir_flush_behind_truncated_backlog", [
+        "cfg grace=1 soft=1 hard=2 tcap=2", "sink 0 lvl=0", "logger 0 sinks=0 lvl=0", "start",
+        "T 1 start", "T 2 start"] + ["L 1 0 4 10", "K 10"] * 6 + ["K 1000", "F 2 0", "K 100000", "P", "R 2", "P", "R 2", "P", "R 2",
+        "P", "R 2", "P", "R 2", "P", "R 2", "Q", "X"]))
     # site 9 (inside a sink destructor run by the logger clean-up): another logger gets a statement and is removed while
     # an earlier logger is being erased — the emptiness of the queues must be re-checked for it (C17)
     out.append(("dir_site9_remove_during_sink_dtor", [
@@ -267,6 +294,19 @@ def directed_scripts(variant):
         "logger 0 sinks=0,1 lvl=0", "logger 1 sinks=2 lvl=0", "logger 2 sinks=2 lvl=0", "start",
         "T 1 start", "T 2 start", "L 1 0 4 10", "L 2 1 4 10", "P", "P", "P", "DS 0", "DS 1", "DS 2", "RL 1 0",
         "P @9.1=L_2_2_4_20,RL_2_2 @9.2=L_1_1_6_10,RL_1_1,F_2_1", "R 2", "P", "R 2", "P", "R 2", "P", "P", "Q", "X"]))
+    # C17: two / three `remove_logger_blocking` calls in flight whose loggers are erased in DIFFERENT backend passes: a statement
+    # of another thread arrives inside the first logger's sink destructor (site 9), so the per-logger emptiness check keeps the
+    # next logger for a later pass; its caller's request stays recorded and must be served by that later pass
+    out.append(("dir_two_blocking_removals_split_passes", [
+        "cfg grace=0 soft=4 hard=8 tcap=2", "sink 0 lvl=0", "sink 1 lvl=0", "sink 2 lvl=0",
+        "logger 0 sinks=0 lvl=0", "logger 1 sinks=1 lvl=0", "logger 2 sinks=2 lvl=0", "start",
+        "T 1 start", "T 2 start", "T 3 start", "DS 0", "DS 1", "RB 1 0", "RB 2 1", "P", "P",
+        "P @9.1=L_3_2_4_10", "R 1", "R 2", "P", "P", "R 2", "P", "R 2", "Q", "X"]))
+    out.append(("dir_three_blocking_removals_split_passes", [
+        "cfg grace=0 soft=4 hard=8 tcap=2", "sink 0 lvl=0", "sink 1 lvl=0", "sink 2 lvl=0", "sink 3 lvl=0",
+        "logger 0 sinks=0 lvl=0", "logger 1 sinks=1 lvl=0", "logger 2 sinks=2 lvl=0", "logger 3 sinks=3 lvl=0", "start",
+        "T 1 start", "T 2 start", "T 3 start", "T 4 start", "DS 0", "DS 1", "DS 2", "RB 1 0", "RB 2 1", "RB 3 2", "P", "P", "P",
+        "P @9.1=L_4_3_4_10", "R 1", "R 2", "R 3", "P", "P @9.1=L_4_3_4_10", "R 2", "R 3", "P", "P", "R 3", "P", "R 3", "Q", "X"]))
     # F25 (unbounded builds): a buffer created by a shrink request stays empty when the next statement does not fit in it; the
     # read pass must follow the chain past it, or a younger statement of another thread is written first
     if variant >= 2:
@@ -434,6 +474,15 @@ def oracles(lines):
     loggers_sinks = {g: list(d["sinks"]) for g, d in rec["loggers"].items()}
     last_cap = {}
     unknown_outcomes = [0]
+    # ---- C06 liveness (F34): a flush_log caller parked across polls that process nothing although older ripe statements wait
+    f34_wait = {}       # actor -> clock value of its flush_log call while it is parked in it
+    f34_ctrl = [0]      # accepted events that are processed without any sink call (requests; over-approximation)
+    f34_req = {}        # actor -> [(clock value, poll, site)] of its requests (flush / backtrace / removal)
+    f34_streak = []     # per silent poll of the current streak: dict(idx, blocker, now)
+    f34_cur = dict(poll=None, site=None)   # the poll / hook site whose injected operations are being handled
+    rb_wait = {}        # actor -> (logger name, its sinks) while parked in remove_logger_blocking (C17)
+    erased_sinks = set()    # sinks whose destructor ran in an EARLIER operation: every logger that listed them is erased
+    erased_now = set()      # … in the current operation (the flag is raised at the end of the clean-up pass)
 
     def handle_front(w, res, t_now):
         nonlocal dyn_cfg_changes, dropped_log_calls, removed_loggers, backtrace_used
@@ -469,7 +518,8 @@ def oracles(lines):
             lvl = 9 if op == "LB" else 4 if op == "LN" else int(w[3])
             if op == "LB":
                 backtrace_used = True
-            st = stmts.setdefault(i, dict(actor=a, g=g, lvl=lvl, ts=t_now, enq=None, ret=None, op=op, sinks=list(loggers_sinks.get(g, []))))
+            st = stmts.setdefault(i, dict(actor=a, g=g, lvl=lvl, ts=t_now, enq=None, ret=None, op=op, sinks=list(loggers_sinks.get(g, [])),
+                                          inj_poll=f34_cur["poll"], inj_site=f34_cur["site"]))
             if "parked" in res:
                 pending_by_actor[a] = i
                 park_mark[a] = (idle["epoch"], idle["streak"])
@@ -481,10 +531,16 @@ def oracles(lines):
             backtrace_used = True
             if res != "noop":
                 live_logged.add(int(w[1]))
+                f34_ctrl[0] += 1
+                f34_req.setdefault(int(w[1]), []).append((t_now, f34_cur["poll"], f34_cur["site"]))
         elif op == "F":
             a, g = int(w[1]), int(w[2])
             if res != "noop":
                 live_logged.add(a)
+                f34_ctrl[0] += 1
+                f34_req.setdefault(a, []).append((t_now, f34_cur["poll"], f34_cur["site"]))
+                if res.startswith("parked"):
+                    f34_wait[a] = t_now
             # everything whose log call completed before this flush call began
             flush_wait[a] = dict(need=set(i for i, s in stmts.items() if s["ret"] is True), t=t_now)
             if res == "done":
@@ -495,6 +551,10 @@ def oracles(lines):
                 removal_requested.add(int(w[2]))
             if op == "RB" and res != "noop":
                 live_logged.add(int(w[1]))
+                f34_ctrl[0] += 1
+                f34_req.setdefault(int(w[1]), []).append((t_now, f34_cur["poll"], f34_cur["site"]))
+                if res.startswith("parked:sleep"):
+                    rb_wait[int(w[1])] = (int(w[2]), list(loggers_sinks.get(int(w[2]), [])))
         elif op == "CL":
             g = int(w[2])
             if "valid=1" in res:
@@ -509,8 +569,22 @@ def oracles(lines):
             dyn_cfg_changes = True
         elif op == "T" and w[2] == "exit" and res == "ok":
             exited.add(int(w[1]))
+            f34_wait.pop(int(w[1]), None)
         elif op == "R":
             a = int(w[1])
+            if res == "done":
+                f34_wait.pop(a, None)
+            if a in rb_wait:
+                # C17: a sink is destroyed only after every logger that lists it was erased; the clean-up pass that erased the
+                # logger raises the caller's flag before it ends, so the caller's next resume after that pass returns
+                g, gs = rb_wait[a]
+                if res == "done" or res == "noop":
+                    rb_wait.pop(a)
+                elif res.startswith("parked:sleep") and any(x in erased_sinks for x in gs):
+                    viol.append(("C17", "remove_logger_blocking(%d) of actor %d is still parked although logger %d was erased in an earlier "
+                                 "backend pass (its sink %d has been destroyed): the caller is never released" % (
+                                     g, a, g, [x for x in gs if x in erased_sinks][0])))
+                    rb_wait.pop(a)
             if res.startswith("id=") and a in pending_by_actor:
                 i = pending_by_actor.pop(a)
                 finish_log(i, res, t_now)
@@ -560,22 +634,31 @@ def oracles(lines):
         fw = flush_wait.pop(a, None)
         # (statements logged through a logger that was removed before the flush are included: its sinks are flushed
         #  as long as the backend has not erased it, and it is erased only after an idle pass, which flushes first — F12)
-        if not fw or has_faults or dyn_cfg_changes:
+        if not fw:
             return
+        # with write faults or level changes under way "must have been written" is not claimed (a throwing sink costs the
+        # later sinks their copy, C10); "what was written has been flushed since" is claimed always for the caller's own
+        # statements: the Flush event flushes every sink reachable through a logger — also one that took the statement
+        # before a later sink threw
+        strict = not (has_faults or dyn_cfg_changes)
         for i in fw["need"]:
             st = stmts[i]
             if st["lvl"] == 9:
                 continue
             own = st["actor"] == a
             if not own:
+                if not strict:
+                    continue
                 # claimed only with ordering enabled, for a strictly smaller clock value, and under C05's premise
                 if grace == 0 or not (st["ts"] < fw["t"]) or st["enq"] is None or st["enq"] > st["ts"] + grace:
                     continue
             for s in st["sinks"]:
                 sk = rec["sinks"].get(s)
-                if not sk or not accepts(sk, st, i):
+                if not sk:
                     continue
                 if written.get((s, i), 0) == 0:
+                    if not strict or not accepts(sk, st, i):
+                        continue
                     viol.append(("C06", "flush_log of actor %d returned but statement id=%d (actor %d, ts=%d) is not written to sink %d" % (a, i, st["actor"], st["ts"], s)))
                 elif flushed_after.get(s, -1) <= last_write_idx[(s, i)]:
                     viol.append(("C06", "flush_log of actor %d returned but sink %d was not flushed after statement id=%d was written" % (a, s, i)))
@@ -607,11 +690,91 @@ def oracles(lines):
             flushed_after[int(e.split(":")[1])] = widx[0]
         elif e.startswith("n:dropped:"):
             dropped_reported += int(e.split(":")[2])
+        elif e.startswith("sinkdtor:"):
+            erased_now.add(int(e.split(":")[1]))
+
+    def f34_certain(st, i):
+        # popping this statement certainly calls write_log of some sink (static configuration only)
+        return st["lvl"] != 9 and st["op"] != "LB" and any(
+            (s in rec["sinks"]) and accepts(rec["sinks"][s], st, i) for s in st["sinks"])
+
+    def f34_pending(st, i):
+        return st["ret"] is True and st["enq"] is not None and f34_certain(st, i) and not any(
+            written.get((s, i), 0) for s in st["sinks"])
+
+    def f34_flush():
+        # the streak of silent polls has ended: more silent polls than events that can be processed silently?
+        streak = list(f34_streak)
+        del f34_streak[:]
+        if not streak or has_faults or dyn_cfg_changes:
+            return
+        silent_ok = f34_ctrl[0] + sum(1 for i, st in stmts.items()
+                                      if st["ret"] in (True, "unknown") and not f34_certain(st, i))
+        if len(streak) < 3 + silent_ok:
+            return
+        batch_possible = all(x["pend"] + silent_ok >= cfg.get("soft", 0) for x in streak)
+        unexplained = [x for x in streak if x["blocker"] is None]
+        first = streak[0]
+        if batch_possible and not unexplained:
+            viol.append(("C06", "[F34] flush_log of actor %d stays parked across %d consecutive polls (from operation %d) that process "
+                         "nothing while statement id=%d (ts=%d, older than the request, past the grace period) is pending: every one of "
+                         "these polls is stopped by the batch guard on a context with an empty transit buffer and an unread queue "
+                         "(actors %s: registered / logged inside the poll or with every pending statement inside the grace period)" % (
+                             first["waiter"], len(streak), first["idx"], first["stmt"], stmts[first["stmt"]]["ts"],
+                             sorted({x["blocker"] for x in streak}))))
+        else:
+            x = (unexplained or streak)[0]
+            viol.append(("C06", "flush_log of actor %d stays parked across %d consecutive polls that process nothing while statement id=%d "
+                         "(ts=%d, older than the request, past the grace period) is pending, and the poll at operation %d is not stopped by "
+                         "the batch guard on a newcomer context (%s): flush_log() does not return although the backend keeps running" % (
+                             x["waiter"], len(streak), x["stmt"], stmts[x["stmt"]]["ts"], x["idx"],
+                             "fewer than soft=%d events can be cached" % cfg.get("soft", 0) if not batch_possible else
+                             "every context with a pending statement had one that was readable in this pass")))
+
+    def f34_poll(k_op, now0, fe):
+        if has_faults or dyn_cfg_changes or not f34_wait:
+            del f34_streak[:]
+            return
+        plain = [e for e in fe if not e.startswith("[@")]
+        progress = any(e.startswith(("w:", "fl:", "fthrow:", "wthrow:", "n:")) for e in plain)
+        clock_inj = any(e.startswith("[@") and re.search(r" K_\d+ ->", e) for e in fe)
+        ripe = lambda st: grace == 0 or now0 > st["ts"] + grace
+        cand = None
+        for a, t_req in f34_wait.items():
+            for i, st in stmts.items():
+                if st.get("inj_poll") == k_op:
+                    continue
+                if f34_pending(st, i) and st["ts"] <= t_req and ripe(st) and (st["actor"] == a or st["ts"] < t_req):
+                    cand = (a, i)
+                    break
+            if cand:
+                break
+        if progress or clock_inj or cand is None:
+            f34_flush()
+            return
+        # a context that can stop the batch: it holds pending statements, and none of them could be read in this pass
+        blocker = None
+        by_actor = {}
+        for i, st in stmts.items():
+            if st["ret"] in (True, "unknown") and st["enq"] is not None and st["lvl"] != 9 and not any(written.get((s, i), 0) for s in st["sinks"]) \
+                    and f34_certain(st, i):
+                by_actor.setdefault(st["actor"], []).append(st)
+        late = lambda ts, pl, site: (pl == k_op and (site or 0) >= 2) or not (grace == 0 or now0 > ts + grace)
+        for b in sorted(set(by_actor) | set(f34_req)):
+            sts = by_actor.get(b, [])
+            reqs = [r for r in f34_req.get(b, []) if late(*r)]
+            if (sts or reqs) and all(late(st["ts"], st.get("inj_poll"), st.get("inj_site")) for st in sts):
+                blocker = b
+                break
+        f34_streak.append(dict(idx=k_op, blocker=blocker, now=now0, waiter=cand[0], stmt=cand[1],
+                               pend=sum(1 for i, st in stmts.items() if f34_pending(st, i))))
 
     xs_seen = False
     q_snaps = []
     for k_op, (w, res, evs) in enumerate(rec["ops"]):
         op = w[0]
+        erased_sinks |= erased_now
+        erased_now.clear()
         if op == "Q":
             q_snaps.append((k_op, res, set(live_logged), set(exited), set(pending_by_actor.keys()) | set(flush_wait.keys())))
         if op == "K":
@@ -628,17 +791,24 @@ def oracles(lines):
             else:
                 idle["streak"] = 0
                 idle["epoch"] += 1
+            now_at_poll = now
             for e in flatten_events(evs):
                 if e.startswith("[@"):
-                    m = re.match(r"\[@\d+\.\d+ (\S+) -> (.*)\]$", e)
+                    m = re.match(r"\[@(\d+)\.\d+ (\S+) -> (.*)\]$", e)
                     if m:
-                        iw = m.group(1).split("_")
+                        iw = m.group(2).split("_")
                         if iw[0] == "K":
                             now += int(iw[1])
                         else:
-                            handle_front(iw, m.group(2), now)
+                            f34_cur.update(poll=k_op, site=int(m.group(1)))
+                            handle_front(iw, m.group(3), now)
+                            f34_cur.update(poll=None, site=None)
                 else:
                     handle_event(e)
+            if op == "P" and res != "noop":
+                f34_poll(k_op, now_at_poll, fe)
+            else:
+                f34_flush()
             continue
         handle_front(w, res, now)
         if op != "Q" and res != "noop" and not res.startswith("parked:sleep"):
@@ -647,6 +817,7 @@ def oracles(lines):
         for e in flatten_events(evs):
             handle_event(e)
 
+    f34_flush()
     # ---- C03 / C08 / C10: exactly once, intact, delivered xor dropped ------------------------------------------
     for (s, i), c in written.items():
         st = stmts.get(i)
